@@ -1,8 +1,10 @@
 import Driver.Conv
+import Driver.Cli
 import Driver.Kv
+import Driver.Codec
 import Driver.Timer
 import Driver.Http
-import Driver.Rt
+import Driver.RtOracle
 import Driver.Mw
 
 partial def loop (h : IO.FS.Stream) (out : IO.FS.Stream) (f : String → String) : IO Unit := do
@@ -12,19 +14,35 @@ partial def loop (h : IO.FS.Stream) (out : IO.FS.Stream) (f : String → String)
   out.putStrLn (f line)
   loop h out f
 
-def dispatch : List String → Option (String → String)
+/-- engines with a fixed name: add new lines HERE (before the final `| _ => none`) -/
+def dispatchNamed : List String → Option (String → String)
   | ["model", "conv"] => some Driver.Conv.model
   | ["oracle", "conv"] => some Driver.Conv.oracle
   | ["model", "kv"] => some Driver.Kv.model
   | ["oracle", "kv"] => some Driver.Kv.oracle
+  | ["model", "codec"] => some Driver.Codec.model
+  | ["oracle", "codec"] => some Driver.Codec.oracle
   | ["model", "timer"] => some Driver.Timer.model
   | ["oracle", "timer"] => some Driver.Timer.oracle
   | ["model", "rt"] => some Driver.Rt.model
   | ["model", "mw"] => some Driver.Mw.model
   | ["oracle", "mw"] => some Driver.Mw.oracle
+  | ["model", "mw-fixed"] => some (Driver.Mw.modelWith true)
   | ["model", "http"] => some Driver.Http.model
   | ["oracle", "http"] => some Driver.Http.oracle
+  | ["model", "cli"] => some Driver.Cli.model
+  | ["oracle", "cli"] => some Driver.Cli.oracle
   | _ => none
+
+/-- named engines first, then the `rt-<property>` family -/
+def dispatch (args : List String) : Option (String → String) :=
+  match dispatchNamed args with
+  | some f => some f
+  | none =>
+    match args with
+    | ["model", e] => if e.startsWith "rt-" then some Driver.Rt.model else none
+    | ["oracle", e] => if e.startsWith "rt-" then some (Driver.RtOracle.oracle (e.drop 3).toString) else none
+    | _ => none
 
 def main (args : List String) : IO UInt32 := do
   match dispatch args with
